@@ -469,6 +469,31 @@ func (a *Adversary) Do(s *ByzSpec) {
 				}
 			}
 			a.inject("rewrap", sp, s.To)
+		case 3: // tamper with a genuine NEW_VIEW: header, votes and leader signature untouched, the embedded proposal and the block replaced
+			var nvs []*SentMsg
+			for _, o := range w.Seen {
+				if o.Meta.Union == UNV {
+					nvs = append(nvs, o)
+				}
+			}
+			if len(nvs) == 0 {
+				return
+			}
+			src = nvs[par(s, 0)%len(nvs)]
+			sp := SpecOf(src.Raw)
+			if sp == nil || sp.PPRef == nil || sp.PPSend == nil {
+				return
+			}
+			blk := a.block(src.Meta.H, par(s, 2))
+			pr := *sp.PPRef
+			pr.Hash = blk.Hash()
+			ps := SigSpec{ID: sp.PPSend.ID, Sig: []byte("forged-proposal-signature-xxxxxx")}
+			if par(s, 3)%2 == 1 {
+				ps.Sig = a.sign(s.As, pr.H, pr.Raw())
+			}
+			sp.PPRef, sp.PPSend, sp.Block = &pr, &ps, blk
+			a.Proposals = append(a.Proposals, AdvProposal{pr.H, pr.V, pr.Hash, blk})
+			a.inject("tampered-newview", sp, s.To)
 		case 2: // genuine content, different block attached
 			sp := SpecOf(src.Raw)
 			if sp == nil {
@@ -610,6 +635,13 @@ func (a *Adversary) newView(s *ByzSpec) {
 		}
 	}
 	pps := a.signedRef(signer, ppr)
+	if par(s, 3) == 4 { // embedded proposal claims the legitimate leader of v as its sender, but the signature is not that leader's
+		li := w.LeaderIdx(h, v)
+		pps = SigSpec{ID: w.IDs[li], Sig: []byte("forged-proposal-signature-xxxxxx")}
+		if li != s.As && par(s, 5) >= 5 {
+			pps.Sig = a.sign(s.As, h, ppr.Raw()) // a genuine signature - of somebody else
+		}
+	}
 	spec := &MsgSpec{Union: UNV, NVType: TNV, NVInst: uint64(Instance) + a.instOff, NVH: h, NVV: v, Votes: votes, PPRef: &ppr, PPSend: &pps, Block: blk}
 	spec.Sender = SigSpec{ID: w.IDs[s.As], Sig: a.sign(s.As, h, spec.NVHeaderRaw())}
 	a.Proposals = append(a.Proposals, AdvProposal{h, ppv, hash, blk})
